@@ -210,9 +210,9 @@ class Fxp():
         # callbacks
         if self.callbacks is None: self.callbacks = kwargs.pop('callbacks', [])
 
-        # scaling
-        if self.scale is None: self.scale = kwargs.pop('scale', 1)
-        if self.bias is None: self.bias = kwargs.pop('bias', 0)
+        # scaling (an explicit scale / bias overrides the one copied from `like` or from the template)
+        self.scale = kwargs.pop('scale', 1 if self.scale is None else self.scale)
+        self.bias = kwargs.pop('bias', 0 if self.bias is None else self.bias)
         self.scaled = True if self.scale != 1 or self.bias != 0 else False
 
         # check if val is a raw value
@@ -664,6 +664,14 @@ class Fxp():
         signed = self.signed
         n_word = self.n_word
         n_frac = self.n_frac
+
+        if isinstance(val, Fxp) and (val.scaled or (self.scale is not None and self.bias is not None and (self.scale != 1 or self.bias != 0))):
+            # a scaled source, or a scaled destination: the raw codes of the two objects do not denote the same values, so the
+            # source counts by its value (which goes through this object's own scale / bias map below)
+            if set_inaccuracy and val.status['inaccuracy']:
+                self.status['inaccuracy'] = True
+            val = val.get_val()
+            raw = False
 
         if val is None:
             val = 0
